@@ -38,6 +38,17 @@ CLAIMED = {
         note=TRUST + "Backend kernels replaced by size/precondition contracts (floating-point content not modelled). Shapes bounded (blocks<=2/3, native rank<=3/4). Hard-fused operands (masks), svd/qr/eigh, fuse/unfuse covered in C03/C04 packs, not here.",
         technique='AST-to-SMT symbolic execution of the real metadata code against the wf contract; z3 with cvc5 fallback; native replay of counter-models',
     ),
+    'C05': dict(
+        category='proof',
+        text=("Contracts on the real swap_gate/_meta_swap_gate/_meta_swap_gate_charge/_slices_to_negate (the negated element intervals are "
+              "exactly the blocks whose swapped groups are odd-odd in the declared fermionic components; involution; identity for bosonic "
+              "statistics; undeclared components never matter), swap_charges, sign_canonical_order (= parity of stable-sort inversions, for "
+              "integer order and the lattice fermionic order; reversed pair differs by the exchange sign) and fkron's string/sign bookkeeping; "
+              "discharged by z3 for ALL charges, dimensions and sites at each enumerated shape."),
+        design_ref='DESIGN.md §5 C05',
+        note=TRUST + "negate_blocks kernel assumed to negate exactly the listed intervals. NOT decided: order-independence of ncon/einsum networks with swap gates (sign-form generator not built; F7 anomaly class documented) and the dense CAR check of fkron.",
+        technique='AST-to-SMT symbolic execution of the real sign bookkeeping against parity specifications; z3 with cvc5 fallback; native replay',
+    ),
     'C20': dict(
         category='proof',
         text=("Contracts on the real geometry classes (SquareLattice, CheckerboardLattice, RectangularUnitcell, TriangularLattice) "
